@@ -11,6 +11,12 @@ CHECKS = {
   text="Each case is one adversarial schedule (delivery order, loss, duplication, armed and stale timeouts, catch-up gossip, Byzantine equivocation / conflicting proposals / selective delivery with <1/3 power) over 4-7 real consensus state machines with real key files. "
        "The oracle keeps its own vote/lock bookkeeping and checks agreement of CommitBlock calls, an independent >2/3 tally of every seen-commit and the three voting-discipline rules. Held on the schedules explored only; liveness is not claimed.",
   note="trusted: the 250-line trace oracle, the light application (accepts any block extending its head), consensus/verif_hooks.go (synchronous entry points, no behaviour change). The wall-clock 'recover' mode is not triggered."),
+ "C02": dict(
+  level="exploration", design="§5 C02", engine="detsim",
+  technique="deterministic consensus simulation over the real LinkApplication: Byzantine proposer gossips real-proposer-path blocks with one enumerated consensus-level corruption (consistently re-hashed, correctly signed proposal); trace oracle on correct validators' votes, ApplyBlock outcome, SIGTERM-to-self trap",
+  text="3 correct state machines with the real application, mempool, evidence pool and block executor; at its turn the Byzantine proposer sends a block with one of 25 corruptions (header fields, LastCommit defects, evidence defects) at heights 1..5. "
+       "Violation: a correct node prevotes/precommits it, ApplyBlock fails after a commit, the process-kill request is observed, a panic, or no recovery commit in the fault-free continuation. The repository's own ValidateBlock is cross-checked against the by-construction knowledge that the block is invalid. Held on the corruptions x heights explored.",
+  note="rounds > 0 for the corrupted proposal and joint corruptions are not yet driven. One genuine defect found and fixed (known_findings.txt)."),
  "C16": dict(
   level="exploration", design="§5 C16", engine="detsim",
   technique="hostile-input monitoring: boundary-valued consensus messages of all kinds and mutated bytes through the real ConsensusReactor.Receive and the real state machine in a deterministic simulation; panic / allocation / bounded-progress oracles",
